@@ -100,7 +100,7 @@ ASSUMPTIONS = [
     "get_marginal_fock_probabilities)",
 ]
 # fractions of all evaluations of a quiet full run; measured values in the comment of parts()
-FLOORS = {"perm_moves_multimode": 0.25, "swap_with_multimode": 0.10,
+FLOORS = {"perm_moves_multimode": 0.15, "swap_with_multimode": 0.08,
           "permuted_multimode_tuple": 0.05}
 
 TOL = 1e-9
@@ -739,9 +739,34 @@ def swapped(items, i):
 
 
 @st.composite
+def disjoint_pair(draw, d, names, multi, scale=0.5):
+    """Two gates on disjoint pools of modes (one of them on >= 2 modes when d >= 3)."""
+    order = draw(progs.ordered_modes(d, d))
+    cut = draw(st.integers(1, d - 1))
+    pools = [order[:cut], order[cut:]]
+    out = []
+    for pool in pools:
+        pick = [n for n in (multi if len(pool) >= 2 and draw(st.integers(0, 3)) else names)
+                if (progs.ARITY[n] or 1) <= len(pool)]
+        g = draw(progs.gate(d, pick or names, scale, pool=pool))
+        out.append(g)
+    return out if draw(st.booleans()) else out[::-1]
+
+
+@st.composite
 def commute_case(draw):
     sim = draw(st.sampled_from(["G", "G", "PF", "F", "P", "P"]))
-    desc = draw(bosonic_program(sim, conserving=(sim in ("PF", "F")), min_d=3, max_gates=7))
+    desc = draw(bosonic_program(sim, conserving=(sim in ("PF", "F")), min_d=3, max_gates=5))
+    names = sorted(progs.SUPPORT[sim] - {"Attenuator"})
+    multi = MULTI[sim]
+    if sim in ("PF", "F"):
+        names = [n for n in names if n in CONSERVING]
+        multi = [n for n in multi if n in CONSERVING]
+    pair = draw(disjoint_pair(desc["d"], names, multi))
+    pos = draw(st.integers(0, len(desc["gates"])))
+    if desc["gates"] and desc["gates"][-1]["g"] == "Attenuator":
+        pos = min(pos, len(desc["gates"]) - 1)
+    desc["gates"] = desc["gates"][:pos] + pair + desc["gates"][pos:]
     return {"sim": sim, "desc": desc}
 
 
@@ -975,6 +1000,9 @@ def permuted_gate_case(draw):
     for g in desc["gates"]:
         k = len(g["modes"])
         sigs.append(list(draw(st.permutations(list(range(k))))) if k >= 2 else [0])
+    if all(sg == sorted(sg) for sg in sigs):
+        i = next(i for i, g in enumerate(desc["gates"]) if len(g["modes"]) >= 2)
+        sigs[i] = sigs[i][::-1]
     return {"sim": sim, "desc": desc, "sigs": sigs}
 
 
@@ -1170,6 +1198,12 @@ def fermionic_case(draw):
         if d >= 2 and not any(len(g["modes"]) >= 2 for g in gates):
             g = draw(f_gate_any(d))
             gates.append(g)
+        if mode == "commute" and d >= 2:
+            order = draw(progs.ordered_modes(d, d))
+            cut = draw(st.integers(1, d - 1))
+            pair = [draw(f_gate_any(d, pool=order[:cut])), draw(f_gate_any(d, pool=order[cut:]))]
+            pos = draw(st.integers(0, len(gates)))
+            gates = gates[:pos] + pair + gates[pos:]
         case["gates"] = gates
         case["perm"] = list(draw(st.permutations(list(range(d)))))
         if mode == "permuted":
@@ -1184,6 +1218,11 @@ def fermionic_case(draw):
         for _ in range(draw(st.integers(1, 6))):
             lo, hi = blocks[draw(st.integers(0, len(blocks) - 1))]
             gates.append(draw(f_gate_block(lo, hi)))
+        if mode == "commute" and len(blocks) >= 2:
+            b1, b2 = blocks[0], blocks[1]
+            pair = [draw(f_gate_block(*b1)), draw(f_gate_block(*b2))]
+            pos = draw(st.integers(0, len(gates)))
+            gates = gates[:pos] + (pair if draw(st.booleans()) else pair[::-1]) + gates[pos:]
         order = list(draw(st.permutations(list(range(len(blocks))))))
         perm, pos = [0] * d, 0
         for bi in order:
@@ -1263,23 +1302,23 @@ def parts(tier):
              budget_s={"quick": 20, "thorough": 60}),
         Part("relabel", prop_relabel, strategy=relabel_case(),
              examples={"quick": 640, "thorough": 10000},
-             budget_s={"quick": 40, "thorough": 1500}),
+             budget_s={"quick": 35, "thorough": 1500}),
         Part("relabel_meas", prop_relabel_meas, strategy=relabel_meas_case(),
              examples={"quick": 480, "thorough": 8000},
-             budget_s={"quick": 30, "thorough": 1200}),
+             budget_s={"quick": 25, "thorough": 1200}),
         Part("commute", prop_commute, strategy=commute_case(),
              examples={"quick": 320, "thorough": 6000},
-             budget_s={"quick": 25, "thorough": 1200}),
+             budget_s={"quick": 20, "thorough": 1200}),
         Part("commute_meas", prop_commute_meas, strategy=commute_meas_case(),
              examples={"quick": 240, "thorough": 4000},
-             budget_s={"quick": 20, "thorough": 900}),
+             budget_s={"quick": 15, "thorough": 900}),
         Part("commute_active", prop_commute_active, strategy=commute_active_case(),
              examples={"quick": 64, "thorough": 1500},
              budget_s={"quick": 20, "thorough": 1200}),
         Part("permuted_gate", prop_permuted_gate, strategy=permuted_gate_case(),
              examples={"quick": 320, "thorough": 6000},
-             budget_s={"quick": 20, "thorough": 900}),
+             budget_s={"quick": 15, "thorough": 900}),
         Part("fermionic", prop_fermionic, strategy=fermionic_case(),
              examples={"quick": 480, "thorough": 8000},
-             budget_s={"quick": 25, "thorough": 1200}),
+             budget_s={"quick": 20, "thorough": 1200}),
     ]
